@@ -33,7 +33,8 @@ LEVEL = "fault_enumeration"
 RULE = (
     "case = (close path, fault variant of the wrapped transport / peer behaviour, cancellation spec in {none} U {task.cancel, "
     "scope.cancel} x {iteration k in 0..K+2 of the close} x {before I/O, after I/O}); K is measured on the uncancelled run of the "
-    "same scenario, so the enumeration is complete per scenario. Paths: TLS aclose, TLS wrap, stapled stream/datagram close, "
+    "same scenario, so the enumeration is complete per scenario (thorough tier: also every ordered pair of requests, the second one a "
+    "task.cancel() landing while the first is being handled). Paths: TLS aclose, TLS wrap, stapled stream/datagram close, "
     "aclose_forcefully, socket adapter close on a real socket, endpoint close, async TCP client close (idle / behind a sender), "
     "server-side client close, stream-server client task teardown. non-trivial = the cancellation landed while the close "
     "operation was in progress (started and not finished); distinct = distinct (path, variant, spec)"
@@ -535,7 +536,7 @@ def run_one(path: str, variant: str, spec: tuple | None) -> dict:
         task = asyncio.ensure_future(closing())
         k0 = loop.iteration + 1  # the closing task takes its first step in the next iteration
         if spec is not None:
-            kind, k, slot = spec
+            kind, k, slot = spec[:3]
 
             def fire():
                 if task.done():
@@ -551,6 +552,16 @@ def run_one(path: str, variant: str, spec: tuple | None) -> dict:
                     scope.cancel()
 
             (loop.before_io if slot == "before" else loop.after_io)(k0 + k, fire)
+            if len(spec) > 3:
+                # a second request while the first one is being handled (the clean-up path runs under cancellation again):
+                # always a task.cancel(), e.g. an outer timeout firing while an inner one unwinds
+                def fire2():
+                    if task.done():
+                        return
+                    res["second_fired_in_progress"] = res["started"]
+                    task.cancel()
+
+                loop.before_io(k0 + spec[3], fire2)
         try:
             res["outcome"] = await task
         except asyncio.CancelledError:
@@ -615,7 +626,7 @@ def plan(tier: str, seed: int) -> list[dict]:
     units: list[dict] = []
     per = max(1, len(shards) // 32)
     for i in range(0, len(shards), per):
-        units.append({"seed": seed, "items": shards[i : i + per]})
+        units.append({"seed": seed, "items": shards[i : i + per], "tier": tier})
     return units
 
 
@@ -642,6 +653,20 @@ def run_shard(params: dict, ctx) -> None:
                         ctx.count("cancellations_landed_in_progress")
                         ctx.count(f"cancel_in:{r.get('phase', 'other')}")
                     _judge(ctx, path, variant, spec, r)
+        if params.get("tier") == "thorough":
+            # every ordered pair of cancellation points (first request in iteration k, second one in iteration k2 > k)
+            for kind in item["kinds"]:
+                for k in range(0, K + 2):
+                    for k2 in range(k + 1, min(K + 6, k + 12)):
+                        if ctx.should_stop(150):
+                            return
+                        spec = (kind, k, "before", k2)
+                        r = run_one(path, variant, spec)
+                        both = bool(r.get("fired_in_progress")) and bool(r.get("second_fired_in_progress"))
+                        ctx.case(both, path, variant, spec)
+                        if both:
+                            ctx.count("double_cancellations_landed_in_progress")
+                        _judge(ctx, path, variant, spec, r)
         ctx.sample({"path": path, "variant": variant, "uncancelled_iterations_K": K, "uncancelled_outcome": base.get("outcome"), "specs": f"(task|scope) x k in 0..{K + 2} x (before|after I/O)"}, limit=4)
 
 
